@@ -181,17 +181,38 @@ def collect(rep, recs, rng_env=None, lhs_rhs=None):
         rep.count(ob['result'] if ob['result'] in ('unsat', 'sat', 'unknown', 'vacuous') else 'unknown', ob['name'])
 
 
-def h_gcd(at, rng):
+def _arr1(v):
+    """1-element object array holding a symbolic scalar: drives the ndim != 0 (np.where) branch of the real function"""
+    import numpy as real_np
+    a = real_np.empty(1, dtype=object)
+    a[0] = v
+    return a
+
+
+def h_gcd(at, rng, array=False):
     def h(c):
         ra1, dec1, ra2, dec2 = angle_deg('ra1'), angle_deg('dec1'), angle_deg('ra2'), angle_deg('dec2')
         for d in (dec1, dec2):
             cd, _ = cs(d)
             c.assume(cd > 0)     # |dec| < 90 (the poles themselves are outside the claim)
-        sep = at.gcd(ra1, dec1, ra2, dec2)
+        if array:
+            real_gcd = at.gcd
+
+            def gcd_arr(*a):
+                r = real_gcd(*[_arr1(v) for v in a])
+                ok = getattr(r, 'shape', None) == (1,) and isinstance(r[0], SN)
+                c.oblige('gcd[array]:returns an array of the argument shape', z3.BoolVal(bool(ok)))
+                if not ok:
+                    raise core.Unsupported('array branch did not return a (1,) array')
+                return r[0]
+            at_gcd = gcd_arr
+        else:
+            at_gcd = at.gcd
+        sep = at_gcd(ra1, dec1, ra2, dec2)
         # the second call forks on its own (mathematically equal) radicand: the two mixed branch pairs are infeasible but only
         # provably so with the trig identities, so their feasibility queries are cut short (an `unknown` fork is abandoned)
         c.solver.set('timeout', 4000)
-        sep2 = at.gcd(ra2, dec2, ra1, dec1)
+        sep2 = at_gcd(ra2, dec2, ra1, dec1)
         out = {}
 
         def shape_of(sp):
@@ -314,11 +335,14 @@ def validate(rep, name, term, names, realfn, rng, c, n=40):
 def run_sphere(rep, at, seed):
     rng = random.Random(seed)
     rat = loader.real('angle_tools')
-    for name, hf, fn in (('K-gcd', h_gcd, 'gcd'), ('K-bear', h_bear, 'bear'), ('K-translate', h_translate, 'translate')):
+    for name, hf, fn in (('K-gcd', h_gcd, 'gcd'), ('K-gcd-array', lambda a, r: h_gcd(a, r, array=True), 'gcd'),
+                         ('K-bear', h_bear, 'bear'), ('K-translate', h_translate, 'translate')):
         rep.kernel(name, functions=[F + ':' + fn],
-                   bounds='all real ra/dec/r/theta with cos(dec) > 0; identities over the trig atoms (c^2+s^2=1), exact',
+                   bounds='all real ra/dec/r/theta with cos(dec) > 0; identities over the trig atoms (c^2+s^2=1), exact'
+                          + ('; arguments are 1-element object arrays (the np.ndim != 0 / np.where branch; element-wise code, so one '
+                             'element stands for every position)' if name == 'K-gcd-array' else ''),
                    stubs=['np.sin/cos/radians/degrees/arcsin/arctan2/sqrt -> units-aware trig algebra (symx.core)',
-                          'np.minimum -> ite'],
+                          'np.minimum -> ite'] + (['np.where -> per-element ite (forks on the symbolic condition)'] if name == 'K-gcd-array' else []),
                    assumes=['floats as reals', 'pi/180 is a symbolic constant K', 'sympy normalisation before the z3 query (cross-checked numerically)'],
                    outside=['triangle inequality', '1e-9 deg agreement near 0/180 deg (conditioning)', 'rhumb-line functions'])
         keep = {}
